@@ -12,6 +12,11 @@ Definition model_keys (t : option vkey) (ij kl : nat * nat) : list vkey :=
   let key := canon4 (fst ij) (snd ij) (fst kl) (snd kl) in
   if is_target t key then [] else [key].
 
+Lemma gen_keys_key_canon4 :
+  forallb (fun t : nat * nat * nat * nat => let '(i, j, k, l) := t in
+             vkey_eqb (gen_keys_key i j k l) (canon4 i j k l)) idx81 = true.
+Proof. vm_compute. reflexivity. Qed.
+
 Lemma tie_energy_keys (isz : R -> bool) (e : nat -> nat -> R) (t : option vkey) :
   gen_energy_keys isz e t = energy_keys isz e t.
 Proof.
@@ -21,8 +26,10 @@ Proof.
              if p (i, j) && p (k, l) then model_keys t (i, j) (k, l) else [])).
   - unfold idx81. rewrite (flat_guarded_prod p (model_keys t)). unfold energy_keys, nz. fold p.
     reflexivity.
-  - intros acc [[[i j] k] l] Hin. apply In_idx81 in Hin. destruct Hin as (Hi & Hj & Hk & Hl).
-    subst p. cbn beta iota. cbn [fst snd]. rewrite gen_c4_canon4 by assumption.
+  - intros acc [[[i j] k] l] Hin.
+    pose proof (proj1 (forallb_forall _ _) gen_keys_key_canon4 _ Hin) as Hkey.
+    cbn beta iota in Hkey. apply vkey_eqb_eq in Hkey.
+    subst p. cbn beta iota. cbn [fst snd]. rewrite Hkey.
     unfold model_keys, key_is, is_target. cbn [fst snd].
     destruct (negb (isz (e i j)) && negb (isz (e k l))); [|rewrite app_nil_r; reflexivity].
     destruct t as [t|]; [destruct (vkey_eqb (canon4 i j k l) t)|]; cbv zeta;
@@ -46,4 +53,4 @@ Proof.
   apply energy_keys_ext. intros i j. reflexivity.
 Qed.
 
-Definition tie_group_keys := (tie_energy_keys, tie_modulus_keys, tie_modulus_keys_rotated).
+Definition tie_group_keys := (gen_keys_key_canon4, tie_energy_keys, tie_modulus_keys, tie_modulus_keys_rotated).
